@@ -74,6 +74,19 @@ CLAIMED["C02"] = dict(
           "harness Host (tick_energy failing), i.e. at the wasm-transform level; the chain-integration InterpreterEnergy path is exercised by C14. Same bounds and trusted base as C01."),
     ref="4 C02")
 
+CLAIMED["C06"] = dict(
+    engine="base",
+    technique="TLA+ specs AccessStructure (threshold policy), TxEnvelope (serialised header/payload, size, energy, digests) and UpdateKeys enumerated exhaustively by TLC; every vector replayed with real ed25519 keys on the verification, signing and construction functions",
+    text=("AccessStructure.tla states the policy (account threshold of credentials, each registered and supplying its own threshold of signatures, every supplied signature by a "
+          "registered key and valid for the digest; sponsored = sender and sponsor) and TLC enumerates every (access structure, signature map) within small index sets - including unknown "
+          "credential/key indices, thresholds above the number of keys, index 255, and one corrupted or wrong-digest signature - checking the design facts (self-signing verifies, unknown or faulty "
+          "signatures reject). Each vector is replayed with real keys on verify_data_signature, AccountTransaction and AccountTransactionV1 verification and AccountKeys signing, and authorised "
+          "vectors are perturbed field by field (nonce, energy, expiry, sender, payload, key set, v0 digest on a v1 transaction). TxEnvelope.tla gives the serialised header and payload bytes, declared "
+          "size and energy formula for four payload kinds as byte terms; construct::* output, sign digest and block-item hash are compared byte for byte. UpdateKeys.tla decides find_authorized_keys."),
+    note=("Bounded: <= 3 credentials x <= 3 keys, <= 6 signatures, thresholds {1,2,3,255}; payload kinds transfer, transfer with memo, register data, scheduled transfer. ed25519-dalek is trusted for single "
+          "signatures. Chain-side verification of update instructions is in the Haskell node and not bound."),
+    ref="4 C06")
+
 NOT_YET = {
 }
 
@@ -112,6 +125,8 @@ def main():
             "add_only": True,
         },
         "engines": [
+            {"name": "base", "path": "harness/base", "serves_properties": sorted(k for k, v in CLAIMED.items() if v["engine"] == "base"),
+             "kind_free_text": "Rust conformance harness over concordium_base (with internal-test-helpers) and the key-derivation crates; specs under spec/auth, spec/codec, spec/crypto"},
             {"name": "engine", "path": "harness/engine", "serves_properties": sorted(k for k, v in CLAIMED.items() if v["engine"] == "engine"),
              "kind_free_text": "Rust conformance harness (replay of TLC behaviours, trace recording) over wasm-transform / wasm-chain-integration, built offline with 4 shim crates; specs under spec/trie, spec/wasm, spec/host"},
         ],
